@@ -1414,3 +1414,59 @@ package zap
 //@   requires core != nil
 //@   modifies nothing
 //@   ensures typeof(result) == type(*zapcore.lazyWithCore) && fresh(as(result, type(*zapcore.lazyWithCore))) && as(result, type(*zapcore.lazyWithCore)).originalCore == core && as(result, type(*zapcore.lazyWithCore)).fields == *fields
+
+// ---------------------------------------------------------------------------
+// Sugared derivations (C07, C09, C14): a fresh SugaredLogger around the base logger the corresponding
+// Logger method returned for exactly the converted arguments; the receiver and its base are untouched.
+
+//@ func (*zap.SugaredLogger).Named
+//@   props C07 C09
+//@   flags nopanic
+//@   requires s != nil && s.base != nil
+//@   track N = call (*zap.Logger).Named
+//@   modifies nothing
+//@   ensures fresh(result) && #N == 1 && N.recv[0] == old(s.base) && N.arg0[0] == name && result.base == N.ret0[0]
+//@   ensures *s == old(*s) && *s.base == old(*s.base)
+
+//@ func (*zap.SugaredLogger).WithOptions
+//@   props C07 C09
+//@   flags nopanic
+//@   requires s != nil && s.base != nil
+//@   requires forall k int :: 0 <= k && k < len(opts) ==> opts[k] != nil
+//@   track AP = invoke zap.Option.apply
+//@   track CL = call (*zap.Logger).clone
+//@   modifies $user
+//@   ensures fresh(result) && fresh(result.base)
+//@   ensures #AP == len(opts) && (forall k int :: 0 <= k && k < len(opts) ==> AP.recv[k] == opts[k] && AP.arg0[k] == result.base)
+//@   ensures *s == old(*s) && *s.base == old(*s.base)
+//@   loop 1 invariant 0 <= $idx && $idx <= len(opts) && #AP == $idx && *s == old(*s) && *s.base == old(*s.base) && #CL == 1 && fresh(CL.ret0[0]) && unpublished(CL.ret0[0])
+//@   loop 1 invariant type_frame(type(Logger)) && type_frame(type(SugaredLogger))
+//@   loop 1 invariant forall k int :: 0 <= k && k < $idx ==> AP.recv[k] == opts[k] && AP.arg0[k] == CL.ret0[0]
+
+//@ func (*zap.SugaredLogger).With
+//@   props C07 C09 C14
+//@   flags nopanic propagates-panics
+//@   requires s != nil && s.base != nil && s.base.core != nil && s.base.clock != nil && s.base.addStack != nil && s.base.errorOutput != nil
+//@   requires 0 <= s.base.callerSkip && s.base.callerSkip <= 1 << 20
+//@   track SW = call (*zap.SugaredLogger).sweetenFields
+//@   track W = call (*zap.Logger).With
+//@   modifies $user, comp(E:zapcore.Core), comp(E:uint8), comp(E:uintptr), stacktrace.Formatter.nonEmpty, fields(zapcore.Field), fields(zap.invalidPair), swSrc, swAny
+//@   ensures fresh(result) && #SW == 1 && SW.recv[0] == s && SW.arg0[0] == args && #W == 1 && W.recv[0] == old(s.base) && W.arg0[0] == SW.ret0[0] && result.base == W.ret0[0]
+//@   ensures *s == old(*s) && *s.base == old(*s.base)
+
+//@ func (*zap.SugaredLogger).WithLazy
+//@   props C07 C09 C14
+//@   flags nopanic propagates-panics
+//@   requires s != nil && s.base != nil && s.base.core != nil && s.base.clock != nil && s.base.addStack != nil && s.base.errorOutput != nil
+//@   requires 0 <= s.base.callerSkip && s.base.callerSkip <= 1 << 20
+//@   track SW = call (*zap.SugaredLogger).sweetenFields
+//@   track W = call (*zap.Logger).WithLazy
+//@   modifies $user, comp(E:zapcore.Core), comp(E:uint8), comp(E:uintptr), stacktrace.Formatter.nonEmpty, fields(zapcore.Field), fields(zap.invalidPair), swSrc, swAny
+//@   ensures fresh(result) && #SW == 1 && SW.recv[0] == s && SW.arg0[0] == args && #W == 1 && W.recv[0] == old(s.base) && W.arg0[0] == SW.ret0[0] && result.base == W.ret0[0]
+//@   ensures *s == old(*s) && *s.base == old(*s.base)
+
+// Shared state reached without a lock is either immutable after publication (above, and the cores
+// below) or of a sync/atomic type, so that every access is an atomic operation by construction.
+//@ atomic zapcore.counter.resetAt props C09 C11
+//@ atomic zapcore.counter.counter props C09 C11
+//@ atomic zap.AtomicLevel.l props C09 C20
